@@ -147,6 +147,22 @@ def handle (toks : List String) : Option String :=
       pure (fmt r first log ++
         (if creatorDone then " c0=" ++ showRes r ++ "@" ++ toString t1 else " c0=cancelled") ++
         " j=" ++ showRes r ++ "@" ++ toString t2)
+  | "seq" :: strat :: ncr :: tms :: att :: m :: gap :: srvToks => do
+    let strategy ← (match strat with
+      | "user" => some Strategy.user | "rr" => some Strategy.rr | _ => none)
+    let ncr ← ncr.toNat?
+    let tms ← tms.toNat?
+    let att ← (if att == "-" then some none else att.toNat?.map some)
+    let m ← m.toNat?
+    let gap ← gap.toNat?
+    let srvs ← srvToks.mapM parseSrv
+    if srvs.isEmpty || srvs.length > 8 || ncr > 8 || tms == 0 || m == 0 || m > 8 || gap > 1000 then none
+    if (att.getD 0) > 4 || (srvs.any fun s => s.srv.warm > 0) then none
+    let cfg : Cfg := ⟨srvs.map (·.srv), strategy, ncr, tms⟩
+    let conns : List Conn := srvs.map fun s => { liveU := s.preU, liveT := s.preT }
+    let (rs, p) ← Pool.seq cfg FUEL att gap m ⟨conns, 0, 0, []⟩ []
+    pure (";".intercalate (rs.map fun (r, t) => showRes r ++ "@" ++ toString t) ++
+      " log=" ++ showLog true (mkLog 0 0 p.log))
   | _ => none
 
 def step (s : State) (toks : List String) : State × String :=
